@@ -1,18 +1,22 @@
 import MxModel.Props.C08
 import MxModel.Props.C01
+import MxModel.Proofs.ExecFlagsRun
 /-!
 # C09 – the cached flag never changes any result
 
 The specification `Den` mentions the cached flag in two places only: user-assigned values
 (inputs) are consulted for cached cells only, and `None` is rejected for cached cells only.
-`flags_irrelevant_to_values`: apart from those two documented differences – i.e. when no
-element has an input and `None` is allowed everywhere – the specification does not depend on
-the flags at all; with C01 (the mechanism returns the specification's value under *every*
-flag assignment) every assignment of the flags gives the same results.
-That *invalidation* still reaches every value computed through uncached cells after edits is
-not a Lean theorem here; it is decided by the implementation-only oracle (same history under
-all flag assignments, random and small-scope exhaustive) – two defects found that way were
-repaired (known_findings.json).
+`flags_irrelevant_to_values_partial`: two flag assignments give the same specification as soon as
+(I) assigned values sit only on cells whose flag is the same in both (an uncached cells accepts no
+assignment), and (II) no formula of a cells whose flag DIFFERS returns `None` where `None` is not
+allowed – (II) excludes exactly the recorded finding C09-uncached-none-unchecked
+(`flags_full_statement_fails`), nothing else; the default configuration `allow_none = False` is
+covered.  `flags_irrelevant_when_none_never_returned`: the same with (II) stated on the all-cached
+assignment alone ("no evaluation fails with `NoneReturnedError`").  With C01 (the mechanism returns
+the specification's value under *every* flag assignment) every assignment gives the same results:
+`mechanism_results_flag_independent_partial`; and after any history of evaluations and reference /
+formula / flag edits (`results_flag_independent_after_history_partial`: both runs hold certificates
+for their own definitions, C02, and the two specifications coincide).
 -/
 namespace MxModel.C09
 open MxModel.Exec
@@ -30,46 +34,206 @@ theorem denoteBody_congr (env env' : Env) (f : Node → Res × Bool) (hr : env'.
   | read a r k ih => simp only [denoteBody, hr]; exact ih _
   | call n k ih => simp only [denoteBody, calleeAt, ha, ih]
 
-/-- **Switching any subset of cells between cached and uncached changes no value**
-(specification level; no inputs, `None` allowed). -/
-theorem flags_irrelevant_to_values (env : Env) (c : CellId → Bool)
-    (hnone : ∀ x, env.allowNone x = true) :
-    ∀ (d : Nat) (n : Node),
-      denoteN (withFlags env c) (fun _ => none) d n = denoteN env (fun _ => none) d n := by
+/-- **Two flag assignments give the same values** (specification level; partial: (I) and (II)).
+(I) `hinp`: an element with an assigned value belongs to a cells whose flag is the same in both
+assignments.  (II) `hnone`: no formula of a cells whose flag differs returns `None` where `None` is
+not allowed (stated for the first assignment; by the theorem itself it is then true of the second). -/
+theorem flags_irrelevant_to_values_partial (env : Env) (c1 c2 : CellId → Bool) (inp : Node → Option Val)
+    (hinp : ∀ n, inp n ≠ none → c1 n.1 = c2 n.1)
+    (hnone : ∀ d n, c1 n.1 ≠ c2 n.1 → env.allowNone n.1 = false →
+      (denoteBody (withFlags env c1) (denoteN (withFlags env c1) inp d) (env.formula n)).1 ≠ .ok .none) :
+    ∀ (d : Nat) (n : Node), denoteN (withFlags env c1) inp d n = denoteN (withFlags env c2) inp d n := by
   intro d
   induction d with
   | zero => intro n; rfl
   | succ d ih =>
     intro n
-    have hf : denoteN (withFlags env c) (fun _ => none) d = denoteN env (fun _ => none) d := funext ih
-    simp only [denoteN, hf]
-    have h1 : (if (withFlags env c).cached n.1 = true then (none : Option Val) else none) = none := by split <;> rfl
-    have h2 : (if env.cached n.1 = true then (none : Option Val) else none) = none := by split <;> rfl
-    rw [h1, h2]
-    simp only []
-    rw [denoteBody_congr env (withFlags env c) _ rfl rfl]
-    have hck : ∀ r, checkNone (withFlags env c) n.1 r = checkNone env n.1 r := by
-      intro r
-      unfold checkNone withFlags
-      cases r with
+    have hf : denoteN (withFlags env c1) inp d = denoteN (withFlags env c2) inp d := funext ih
+    have hb := hnone d n
+    simp only [denoteN]
+    rw [← hf, denoteBody_congr (withFlags env c1) (withFlags env c2) _ rfl rfl]
+    have h1 : (if (withFlags env c1).cached n.1 = true then inp n else none) =
+        (if (withFlags env c2).cached n.1 = true then inp n else none) := by
+      show (if c1 n.1 = true then inp n else none) = (if c2 n.1 = true then inp n else none)
+      cases hi : inp n with
+      | none => split <;> split <;> rfl
+      | some v => rw [hinp n (by rw [hi]; exact fun h => by cases h)]
+    rw [h1]
+    have hck : checkNone (withFlags env c1) n.1
+          (denoteBody (withFlags env c1) (denoteN (withFlags env c1) inp d) ((withFlags env c1).formula n)).1 =
+        checkNone (withFlags env c2) n.1
+          (denoteBody (withFlags env c1) (denoteN (withFlags env c1) inp d) ((withFlags env c1).formula n)).1 := by
+      generalize hB : (denoteBody (withFlags env c1) (denoteN (withFlags env c1) inp d)
+        ((withFlags env c1).formula n)).1 = B
+      have hb' : c1 n.1 ≠ c2 n.1 → env.allowNone n.1 = false → B ≠ .ok .none := by
+        intro h1 h2; rw [← hB]; exact hb h1 h2
+      unfold checkNone
+      cases B with
       | err e => rfl
-      | ok v => cases v <;> simp [hnone]
+      | ok v =>
+        cases v with
+        | int i => rfl
+        | none =>
+          show (if (c1 n.1 && !env.allowNone n.1) = true then _ else _) =
+            (if (c2 n.1 && !env.allowNone n.1) = true then _ else _)
+          by_cases hc : c1 n.1 = c2 n.1
+          · rw [hc]
+          · cases ha : env.allowNone n.1 with
+            | true => simp
+            | false => exact absurd rfl (hb' hc ha)
     rw [hck]
     rfl
 
-/-- … hence the mechanism returns the same value under any two flag assignments
-(each equals the specification's value, C01). -/
+/-- no evaluation under the ALL-CACHED assignment fails with `NoneReturnedError`: no formula returns
+`None` where it is not allowed (and none raises that error by hand) -/
+def NoneNeverReturned (env : Env) (inp : Node → Option Val) : Prop :=
+  ∀ d n, (denoteN (withFlags env (fun _ => true)) inp d n).1 ≠ .err .noneRet
+
+/-- **Any flag assignment gives the values of the all-cached assignment** when no evaluation of the
+all-cached model ends in `NoneReturnedError` and the assigned values sit on cached cells (partial:
+these two; `allow_none` may be `False` everywhere – the default). -/
+theorem flags_irrelevant_when_none_never_returned (env : Env) (c : CellId → Bool) (inp : Node → Option Val)
+    (hinp : ∀ n, inp n ≠ none → c n.1 = true) (hnone : NoneNeverReturned env inp) :
+    ∀ (d : Nat) (n : Node),
+      denoteN (withFlags env c) inp d n = denoteN (withFlags env (fun _ => true)) inp d n := by
+  intro d
+  induction d with
+  | zero => intro n; rfl
+  | succ d ih =>
+    intro n
+    have hf : denoteN (withFlags env c) inp d = denoteN (withFlags env (fun _ => true)) inp d := funext ih
+    have hb := hnone (d + 1) n
+    have hbody : denoteBody (withFlags env c) (denoteN (withFlags env c) inp d) ((withFlags env c).formula n) =
+        denoteBody (withFlags env (fun _ => true)) (denoteN (withFlags env (fun _ => true)) inp d)
+          ((withFlags env (fun _ => true)).formula n) := by
+      rw [hf]; exact denoteBody_congr (withFlags env (fun _ => true)) (withFlags env c) _ rfl rfl _
+    have h1 : (if (withFlags env c).cached n.1 = true then inp n else none) = inp n := by
+      show (if c n.1 = true then inp n else none) = inp n
+      cases hi : inp n with
+      | none => split <;> rfl
+      | some v => rw [hinp n (by rw [hi]; exact fun h => by cases h)]; rfl
+    have h2 : (if (withFlags env (fun _ => true)).cached n.1 = true then inp n else none) = inp n := rfl
+    simp only [denoteN] at hb ⊢
+    rw [hbody, h1, h2]
+    rw [h2] at hb
+    generalize (denoteBody (withFlags env (fun _ => true)) (denoteN (withFlags env (fun _ => true)) inp d)
+      ((withFlags env (fun _ => true)).formula n)) = B at hb ⊢
+    cases hi : inp n with
+    | some v => rfl
+    | none =>
+      rw [hi] at hb
+      simp only [] at hb ⊢
+      have hck : checkNone (withFlags env c) n.1 B.1 = checkNone (withFlags env (fun _ => true)) n.1 B.1 := by
+        unfold checkNone at hb ⊢
+        cases hB : B.1 with
+        | err e => rfl
+        | ok v =>
+          cases v with
+          | int i => rfl
+          | none =>
+            rw [hB] at hb
+            show (if (c n.1 && !env.allowNone n.1) = true then _ else _) =
+              (if (true && !env.allowNone n.1) = true then _ else _)
+            cases ha : env.allowNone n.1 with
+            | true => simp
+            | false =>
+              exfalso
+              apply hb
+              show (if (true && !env.allowNone n.1) = true then Res.err .noneRet else _) = _
+              rw [ha]; rfl
+      rw [hck]
+
+/-- …hence any TWO assignments under which the assigned values sit on cached cells agree. -/
+theorem flags_irrelevant_between_assignments (env : Env) (c1 c2 : CellId → Bool) (inp : Node → Option Val)
+    (hinp1 : ∀ n, inp n ≠ none → c1 n.1 = true) (hinp2 : ∀ n, inp n ≠ none → c2 n.1 = true)
+    (hnone : NoneNeverReturned env inp) (d : Nat) (n : Node) :
+    denoteN (withFlags env c1) inp d n = denoteN (withFlags env c2) inp d n := by
+  rw [flags_irrelevant_when_none_never_returned env c1 inp hinp1 hnone,
+    flags_irrelevant_when_none_never_returned env c2 inp hinp2 hnone]
+
+/-- **Switching any subset of cells between cached and uncached changes no value**
+(specification level; no inputs, `None` allowed) – corollary of the theorem above. -/
+theorem flags_irrelevant_to_values (env : Env) (c : CellId → Bool)
+    (hnone : ∀ x, env.allowNone x = true) :
+    ∀ (d : Nat) (n : Node),
+      denoteN (withFlags env c) (fun _ => none) d n = denoteN env (fun _ => none) d n := by
+  intro d n
+  exact flags_irrelevant_to_values_partial env c env.cached (fun _ => none) (fun n h => absurd rfl h)
+    (fun d n _ ha => by rw [hnone] at ha; cases ha) d n
+
+/-- … hence the mechanism returns the same value under any two flag assignments (each equals the
+specification's value, C01; partial: (I), (II) as above and `LimitNotCaughtInThisCall` for the two
+evaluations). -/
+theorem mechanism_results_flag_independent_partial (env : Env) (c1 c2 : CellId → Bool)
+    (inp : Node → Option Val)
+    (hinp : ∀ n, inp n ≠ none → c1 n.1 = c2 n.1)
+    (hnone : ∀ d n, c1 n.1 ≠ c2 n.1 → env.allowNone n.1 = false →
+      (denoteBody (withFlags env c1) (denoteN (withFlags env c1) inp d) (env.formula n)).1 ≠ .ok .none)
+    (n : Node) (s s' : St) (v v' : Val)
+    (hg : Good (withFlags env c1) inp s) (hg' : Good (withFlags env c2) inp s')
+    (he : LimitNotCaughtInThisCall (withFlags env c1) n s)
+    (he' : LimitNotCaughtInThisCall (withFlags env c2) n s')
+    (hv : (evalTop (withFlags env c1) n s).1 = .ok v)
+    (hv' : (evalTop (withFlags env c2) n s').1 = .ok v') : v = v' := by
+  have a := (C01.eval_value_is_denotation_partial _ _ n s hg he).1 v hv
+  have b := (C01.eval_value_is_denotation_partial _ _ n s' hg' he').1 v' hv'
+  obtain ⟨d, hd⟩ := b
+  rw [← flags_irrelevant_to_values_partial env c1 c2 inp hinp hnone d n] at hd
+  have := Den_det _ _ n _ _ a ⟨d, hd⟩
+  cases this; rfl
+
+/-- the instance stated before: `None` allowed everywhere, no inputs -/
 theorem mechanism_results_flag_independent (env : Env) (c : CellId → Bool)
     (hnone : ∀ x, env.allowNone x = true) (n : Node) (s s' : St) (v v' : Val)
     (hg : Good env (fun _ => none) s) (hg' : Good (withFlags env c) (fun _ => none) s')
-    (h0 : s.hit = false) (h0' : s'.hit = false)
-    (he : (evalTop env n s).2.hit = false) (he' : (evalTop (withFlags env c) n s').2.hit = false)
-    (hv : (evalTop env n s).1 = .ok v) (hv' : (evalTop (withFlags env c) n s').1 = .ok v') : v = v' := by
-  have a := (C01.eval_value_is_denotation_partial env _ n s hg h0 he).1 v hv
-  have b := (C01.eval_value_is_denotation_partial (withFlags env c) _ n s' hg' h0' he').1 v' hv'
+    (he : LimitNotCaughtInThisCall env n s) (he' : LimitNotCaughtInThisCall (withFlags env c) n s')
+    (hv : (evalTop env n s).1 = .ok v) (hv' : (evalTop (withFlags env c) n s').1 = .ok v') : v = v' :=
+  mechanism_results_flag_independent_partial env env.cached c (fun _ => none) (fun n h => absurd rfl h)
+    (fun d n _ ha => by rw [hnone] at ha; cases ha) n s s' v v' hg hg' he he' hv hv'
+
+/-! ### "now or after any further edits": the same history under two initial flag assignments -/
+
+/-- **Two runs of one history that differ only in the initial assignment of the cached flag return
+the same values** (partial: regime `C02.WF` – terminating, `NoCatch`, statically scoped –;
+`NoneNeverReturned` for the definitions reached; the history makes no assignment – an uncached cells
+accepts none, so an assignment to a cells whose flag differs is not the same operation in the two
+runs).  `ops` is any admissible history of the thirteen-operation language: evaluations (returned,
+failed, stopped by the limit), clears, reference edits, formula edits, FLAG edits at any point, cells
+deleted and created, limit changes.  Both runs hold certificates for their own definitions (C02), so
+both answers are the specification's (C01, no hypothesis about the limit), the two sets of
+definitions differ in the flags only, and the two specifications coincide
+(`flags_irrelevant_between_assignments`). -/
+theorem results_flag_independent_after_history_partial (lt : Node → Node → Prop) (ho : StrictOrder lt)
+    (env0 : Env) (c : CellId → Bool) (hw0 : C02.WF env0 lt) (ops : List C02.Op)
+    (hadm : C02.Admissible lt (env0, {}) ops) (hna : ∀ op ∈ ops, C02.isAssign op = false)
+    (hnone : NoneNeverReturned (C02.run (env0, {}) ops).1 (fun _ => none)) (n : Node) (v v' : Val)
+    (hv : (evalTop (C02.run (env0, {}) ops).1 n (C02.run (env0, {}) ops).2).1 = .ok v)
+    (hv' : (evalTop (C02.run (withFlags env0 c, {}) ops).1 n (C02.run (withFlags env0 c, {}) ops).2).1 = .ok v') :
+    v = v' := by
+  have hr0 : RgNoInputs ({} : St) := fun e he => by simp at he
+  have hadm' : C02.Admissible lt (withFlags env0 c, {}) ops := C02.admissible_flags lt ops env0 c {} {} hadm
+  have hw0' : C02.WF (withFlags env0 c) lt := C02.wf_setFlags hw0 c
+  -- both runs hold certificates for their own definitions; neither has inputs
+  obtain ⟨c1, w1⟩ := C02.run_ci lt ho ops (env0, {}) hw0 (CI.empty env0 lt) hadm
+  obtain ⟨c2, w2⟩ := C02.run_ci lt ho ops (withFlags env0 c, {}) hw0' (CI.empty _ lt) hadm'
+  have i1 : inpOf (C02.run (env0, {}) ops).2 = fun _ => none := by
+    rw [C02.run_inp ho ops (env0, {}) hw0 (CI.empty env0 lt) hr0 hadm]
+    exact C02.inpRun_none ops hna env0
+  have i2 : inpOf (C02.run (withFlags env0 c, {}) ops).2 = fun _ => none := by
+    rw [C02.run_inp ho ops (withFlags env0 c, {}) hw0' (CI.empty _ lt) hr0 hadm']
+    exact C02.inpRun_none ops hna _
+  have a := (C01.eval_value_is_denotation_nocatch_partial _ _ w1.noCatch n _ c1.good).1 v hv
+  have b := (C01.eval_value_is_denotation_nocatch_partial _ _ w2.noCatch n _ c2.good).1 v' hv'
+  rw [i1] at a; rw [i2] at b
+  -- the definitions reached differ in the flags only
+  have henv : (C02.run (withFlags env0 c, {}) ops).1 =
+      withFlags (C02.run (env0, {}) ops).1 (C02.run (withFlags env0 c, {}) ops).1.cached := by
+    rw [C02.run_env, C02.run_env]
+    exact (C02.foldl_envStep_flags ops env0 c).symm
   obtain ⟨d, hd⟩ := b
-  rw [flags_irrelevant_to_values env c hnone d n] at hd
-  have := Den_det env _ n _ _ a ⟨d, hd⟩
+  rw [henv, flags_irrelevant_between_assignments (C02.run (env0, {}) ops).1 _ (C02.run (env0, {}) ops).1.cached
+    (fun _ => none) (fun n h => absurd rfl h) (fun n h => absurd rfl h) hnone d n] at hd
+  have := Den_det _ _ n _ _ a ⟨d, hd⟩
   cases this; rfl
 
 /-- **Uncached cells hold no values** (every reachable state of terminating programs). -/
@@ -77,6 +241,17 @@ theorem uncached_holds_nothing (env : Env) (lt : Node → Node → Prop) (ho : S
     (hr : Ranked env lt) (ops : List C08.Op) (m : Node) (hc : env.cached m.1 = false) :
     lookup (C08.run env {} ops).data m = none :=
   C08.uncached_holds_nothing env lt ho hr ops m hc
+
+/-- …**in every state reachable by the full edit language** (`C02.Op`: also reference, formula and
+flag edits – "flag changes at any point of a history" –, cells deleted and created): a cells that is
+uncached NOW holds nothing, and the graph has an object node only for such a cells. -/
+theorem uncached_holds_nothing_full (lt : Node → Node → Prop) (ho : StrictOrder lt) (env0 : Env)
+    (hw0 : C02.WF env0 lt) (ops : List C02.Op) (hadm : C02.Admissible lt (env0, {}) ops) (m : Node)
+    (hc : (C02.run (env0, {}) ops).1.cached m.1 = false) :
+    lookup (C02.run (env0, {}) ops).2.data m = none ∧
+    (∀ c, GNode.obj c ∈ (C02.run (env0, {}) ops).2.gn → (C02.run (env0, {}) ops).1.cached c = false) :=
+  ⟨C08.uncached_holds_nothing_full lt ho env0 hw0 ops hadm m hc,
+   fun c h => (C08.object_nodes_only_for_uncached_full lt ho env0 hw0 ops hadm c h).1⟩
 
 /-- **…and are re-executed on every call**: a call of an uncached cells always reaches the
 formula evaluator, whatever the cache holds; its arguments are never looked up.  (`keepExc`: when
@@ -131,5 +306,114 @@ example : (evalTop (withFlags nEnv (fun x => x != 0)) (1, []) {}).1 =
 /-! Non-vacuity: the program of C08 with `None` allowed, evaluated under two assignments. -/
 example : (evalTop { C08.gEnv with allowNone := fun _ => true } (3, []) {}).1 =
     (evalTop (withFlags { C08.gEnv with allowNone := fun _ => true } (fun _ => true)) (3, []) {}).1 := by decide
+
+/-! Non-vacuity for the DEFAULT configuration (`allow_none = False` everywhere, where the theorems
+stated before said nothing): `c0() = 3`, `c1() = c0() + 1`, an assigned value on the cached `c2`.
+No evaluation ends in `NoneReturnedError`; the assignment that makes `c0` uncached gives the same
+specification, and the mechanism the same answers. -/
+def qK : Res → Prog
+  | .ok (.int i) => .ret (.int (i + 1))
+  | .ok .none => .ret (.int 0)
+  | .err e => .reraise e
+
+def qEnv : Env where
+  formula := fun n => if n.1 = 0 then .ret (.int 3) else .call (0, []) qK
+  cached := fun _ => true
+  allowNone := fun _ => false
+  refs := fun _ => none
+  maxdepth := 10
+
+def qInp : Node → Option Val := fun n => if n = (2, []) then some (.int 50) else none
+
+theorem qEnv_none_never_returned (c0 : CellId → Bool) (inp : Node → Option Val) :
+    NoneNeverReturned (withFlags qEnv c0) inp := by
+  intro d
+  induction d with
+  | zero => intro n h; cases h
+  | succ d ih =>
+    intro n
+    simp only [denoteN]
+    split
+    · intro h; cases h
+    · by_cases hn : n.1 = 0
+      · have : (withFlags (withFlags qEnv c0) (fun _ => true)).formula n = .ret (.int 3) := by
+          simp [withFlags, qEnv, hn]
+        rw [this]; intro h; cases h
+      · have : (withFlags (withFlags qEnv c0) (fun _ => true)).formula n = .call (0, []) qK := by
+          simp [withFlags, qEnv, hn]
+        rw [this]
+        have hcal : calleeAt (withFlags (withFlags qEnv c0) (fun _ => true))
+            (denoteN (withFlags (withFlags qEnv c0) (fun _ => true)) inp d) (0, []) =
+            denoteN (withFlags (withFlags qEnv c0) (fun _ => true)) inp d (0, []) := rfl
+        simp only [denoteBody, hcal]
+        have := ih (0, [])
+        generalize (denoteN (withFlags (withFlags qEnv c0) (fun _ => true)) inp d (0, [])).1 = r at this
+        match r, this with
+        | .ok (.int i), _ => intro h; cases h
+        | .ok .none, _ => intro h; cases h
+        | .err e, hne =>
+          intro h
+          simp only [qK, denoteBody, checkNone] at h
+          exact hne h
+
+theorem qEnv_wf (c0 : CellId → Bool) : C02.WF (withFlags qEnv c0) idLt := by
+  refine ⟨?_, ?_, ?_⟩
+  · intro n
+    show CallsBelow idLt n (if n.1 = 0 then .ret (.int 3) else .call (0, []) qK)
+    split
+    · trivial
+    · rename_i hn
+      exact ⟨Nat.pos_of_ne_zero hn, fun r => by
+        match r with
+        | .ok (.int i) => trivial
+        | .ok .none => trivial
+        | .err e => trivial⟩
+  · intro n
+    show NoCatch (if n.1 = 0 then .ret (.int 3) else .call (0, []) qK)
+    split
+    · trivial
+    · exact ⟨fun e => trivial, fun r => by
+        match r with
+        | .ok (.int i) => trivial
+        | .ok .none => trivial
+        | .err e => trivial⟩
+  · intro n
+    show NameReadsIn _ (if n.1 = 0 then .ret (.int 3) else .call (0, []) qK)
+    split
+    · trivial
+    · exact fun r => by
+        match r with
+        | .ok (.int i) => trivial
+        | .ok .none => trivial
+        | .err e => trivial
+
+example (d : Nat) (n : Node) :
+    denoteN (withFlags qEnv (fun c => c != 0)) qInp d n = denoteN (withFlags qEnv (fun _ => true)) qInp d n :=
+  flags_irrelevant_when_none_never_returned qEnv _ qInp
+    (by intro n h; by_cases hn : n = (2, []) <;> simp_all [qInp]) (qEnv_none_never_returned qEnv.cached qInp) d n
+
+example : (evalTop (withFlags qEnv (fun c => c != 0)) (1, []) {}).1 = .ok (.int 4) ∧
+    (evalTop (withFlags qEnv (fun _ => true)) (1, []) {}).1 = .ok (.int 4) := by decide
+
+/-! …and over a history with a flag edit in the middle: `c1()` is evaluated, `c0` is switched to
+uncached, `c1()` again – started with all cells cached, and started with `c1` uncached. -/
+def qOps : List C02.Op := [.eval (1, []), .setCached 0 false, .eval (1, [])]
+
+theorem qOps_admissible : C02.Admissible idLt (qEnv, {}) qOps :=
+  ⟨qEnv_wf qEnv.cached, qEnv_wf _, qEnv_wf _, trivial⟩
+
+example (n : Node) (v v' : Val)
+    (hv : (evalTop (C02.run (qEnv, {}) qOps).1 n (C02.run (qEnv, {}) qOps).2).1 = .ok v)
+    (hv' : (evalTop (C02.run (withFlags qEnv (fun x => x != 1), {}) qOps).1 n
+      (C02.run (withFlags qEnv (fun x => x != 1), {}) qOps).2).1 = .ok v') : v = v' :=
+  results_flag_independent_after_history_partial idLt idLt_strict qEnv _ (qEnv_wf qEnv.cached) qOps
+    qOps_admissible (by intro op h; simp [qOps] at h; rcases h with rfl | rfl | rfl <;> rfl)
+    (qEnv_none_never_returned _ _) n v v' hv hv'
+
+example : (evalTop (C02.run (qEnv, {}) qOps).1 (1, []) (C02.run (qEnv, {}) qOps).2).1 = .ok (.int 4) ∧
+    (evalTop (C02.run (withFlags qEnv (fun x => x != 1), {}) qOps).1 (1, [])
+      (C02.run (withFlags qEnv (fun x => x != 1), {}) qOps).2).1 = .ok (.int 4) ∧
+    (C02.run (qEnv, {}) qOps).2.gn = [.obj 0, .elem (1, [])] ∧
+    (C02.run (withFlags qEnv (fun x => x != 1), {}) qOps).2.gn = [] := by decide
 
 end MxModel.C09
